@@ -273,6 +273,23 @@ CHECKS['C16'] = {
                  'inductive step for DecimalRenderer',
 }
 
+CHECKS['C19'] = {
+    'text': 'The shell in batch mode on a scratch copy of the fixture ledger, every choice enumerated through the solver\'s path '
+            'tree: .set sequences over the nine settings, unknown names (incl. names of Settings methods) and 29 value '
+            'spellings against a typed key-value model (exact change or error message and no change; echo); 24 input lines '
+            '(dot-commands, legacy commands, unknown commands, statements of every kind and case, statements starting with a '
+            'command word) never crossing between command handlers and the query executor; for 7 statements x all 2^6 setting '
+            'combinations x text / csv x two placeholders the shell output equals the API result rendered with the current '
+            'settings (numberify first, (empty) for empty text results); .run NAME equals typing the query with the default '
+            'CLOSE date rule; the command line options -f, -m, -o, -q in every combination on a ledger with a load error.',
+    'design_ref': 'DESIGN.md section 5, C19',
+    'note': _COMMON_NOTE + ' Nothing here is symbolic data: the shell goes through cmd, shlex, click and the Beancount loader, '
+            'which cannot run under the solver; the solver\'s contribution is the exhaustive enumeration of option and command '
+            'combinations, and it is claimed as that. Interactive mode (readline, pager) is not covered.',
+    'technique': 'solver-enumerated option / command combinations (CrossHair/z3 path tree) over the real shell, differential '
+                 'against the API + renderers',
+}
+
 NOT_APPLICABLE = {
     pid: 'check under construction in this session; not claimed yet'
     for pid in ['C06', 'C11', 'C12', 'C13', 'C14', 'C16', 'C17', 'C18', 'C19', 'C20']
